@@ -34,6 +34,28 @@ oid = z3.Function("oid", Row, Int)
 
 # "\t".join(cols): an injective-by-assumption rendering of a column list (see C05 lexing axioms)
 strjoin = z3.Function("strjoin", Str, StrSeq, Str)
+_str_fns = {}
+
+
+def str_fn(name):
+    """uninterpreted str -> str function standing for a library text transformation"""
+    if name not in _str_fns:
+        _str_fns[name] = z3.Function(name, Str, Str)
+    return _str_fns[name]
+
+
+def bool_fn(name):
+    if name not in _str_fns:
+        _str_fns[name] = z3.Function(name, Str, Bool)
+    return _str_fns[name]
+
+
+def seq_fn(name):
+    if name not in _str_fns:
+        _str_fns[name] = z3.Function(name, Str, StrSeq)
+    return _str_fns[name]
+
+
 RowArr = z3.ArraySort(Int, Row)
 IntArr = z3.ArraySort(Int, Int)
 
@@ -185,6 +207,10 @@ class Verdict:
         self.reason = reason
 
 
+def _model_ok_late(s):
+    return _model_ok(s)
+
+
 def mentions(exprs, names):
     """does any of the z3 terms mention an uninterpreted symbol with one of these names?"""
     seen = set()
@@ -231,6 +257,8 @@ def _z3_check(assertions, timeout_ms, want_model=False, axioms=None):
     if r == z3.unsat:
         return Verdict("unsat", "z3", dt), s
     if r == z3.sat:
+        if not _model_ok_late(s):
+            return Verdict("unknown", "z3", dt, None, "sat with a model that falsifies an assertion: ignored"), s
         m = None
         if want_model:
             try:
@@ -375,10 +403,19 @@ def export_noseq(pc, goal, axioms=None):
     """the query with every assumption about strings / tag sequences left out (weaker assumptions, so an
     `unsat` is still a proof).  z3 gives up early on quantifiers mixed with the sequence theory; most
     obligations do not depend on tag contents at all."""
+    stripped = False
+    while _uses_seq(goal) and z3.is_implies(goal):
+        # proving the consequent under fewer hypotheses proves the implication
+        a, b = goal.arg(0), goal.arg(1)
+        keep_a = [c for c in _conjuncts(a) if not _uses_seq(c)]
+        goal = z3.Implies(z3.And(*keep_a), b) if keep_a and not _uses_seq(b) else b
+        stripped = True
+        if not z3.is_implies(goal) or not _uses_seq(goal):
+            break
     if _uses_seq(goal):
         return None
     kept = []
-    dropped = False
+    dropped = stripped
     for f in pc:
         for c in _conjuncts(f):
             if _uses_seq(c):
@@ -590,12 +627,16 @@ def solve_text(text, relaxed, timeout_ms=10000, cvc5_timeout_ms=20000, noseq=Non
                 r2 = s2.check()
                 if r2 == z3.unsat:
                     return {"status": "discharged", "backend": "z3", "seconds": round(time.time() - t0, 4), "note": f"retry seed {seed}"}
-                if r2 == z3.sat and txt is text:
+                if r2 == z3.sat and txt is text and _model_ok(s2):
                     return {"status": "refuted", "backend": "z3", "seconds": round(time.time() - t0, 4), "model": _model_str(s2)}
         dt = time.time() - t0
     if r == z3.sat:
-        return {"status": "refuted", "backend": "z3", "seconds": round(dt, 4), "model": _model_str(s)}
-    reason = s.reason_unknown()
+        if _model_ok(s):
+            return {"status": "refuted", "backend": "z3", "seconds": round(dt, 4), "model": _model_str(s)}
+        r = z3.unknown
+        reason = "z3 answered sat with a model that falsifies an assertion (sequence theory): ignored"
+    else:
+        reason = s.reason_unknown()
     out = {"status": "undecided", "backend": "z3", "seconds": round(dt, 4), "reason": f"z3: {reason}"}
     if os.path.exists(CVC5) and cvc5_timeout_ms > 0:
         v2 = _cvc5_text("(set-logic ALL)\n" + text, cvc5_timeout_ms)
@@ -603,7 +644,9 @@ def solve_text(text, relaxed, timeout_ms=10000, cvc5_timeout_ms=20000, noseq=Non
         if v2.status == "unsat":
             return {"status": "discharged", "backend": "cvc5", "seconds": out["seconds"]}
         if v2.status == "sat":
-            return {"status": "refuted", "backend": "cvc5", "seconds": out["seconds"], "model": ""}
+            # no model to validate against the assertions: reported, but not counted as a refutation
+            out["reason"] += "; cvc5: sat (unvalidated)"
+            return out
         out["reason"] += f"; cvc5: {v2.reason}"
     if relaxed:
         s2 = z3.Solver()
@@ -613,6 +656,22 @@ def solve_text(text, relaxed, timeout_ms=10000, cvc5_timeout_ms=20000, noseq=Non
             out["candidate_model"] = _model_str(s2)
             out["reason"] += "; candidate counterexample exists when `cum` is left uninterpreted"
     return out
+
+
+def _model_ok(s):
+    """a `sat` answer is only believed if the model does not falsify any ground assertion (z3's sequence
+    theory has been seen to return models that do)"""
+    try:
+        m = s.model()
+        for a in s.assertions():
+            if z3.is_quantifier(a):
+                continue
+            v = m.eval(a, model_completion=True)
+            if z3.is_false(v):
+                return False
+        return True
+    except Exception:
+        return False
 
 
 def _model_str(s):
